@@ -136,8 +136,14 @@ def r_ordered(prog, tier):
     elif 'sorted(' not in src and '.sort(' not in src:
         ok, why = False, 'children() returns the stored order (no sort at all)'
     elif '.sort(' in src:
-        ok, why = False, 'children() sorts the stored list in place: callers that hold the list see it change, and ' \
-                         'code reading .children relies on an earlier call'
+        # in place on the stored list (directly, or through a name that is the stored list) - not on a copy of it
+        stored = set(['%s.children' % f.params[0]]) | set(
+            nm_ for nm_ in f.locals for (_, dv_) in name_defs(f, nm_) if isinstance(dv_, ast.AST) and unparse(dv_) == '%s.children' % f.params[0])
+        inplace = [c_ for c_ in walk_own(f.node) if isinstance(c_, ast.Call) and isinstance(c_.func, ast.Attribute)
+                   and c_.func.attr == 'sort' and unparse(c_.func.value) in stored]
+        if inplace:
+            ok, why = False, 'children() sorts the stored list in place: callers that hold the list see it change, and ' \
+                             'code reading .children relies on an earlier call'
     # whatever the shape: a return that hands out the stored list itself gives callers an alias that changes under them
     for r_ in rets:
         if r_.value is not None and unparse(r_.value) == '%s.children' % f.params[0]:
@@ -490,6 +496,8 @@ def _raw_context(n, par, parents):
     if isinstance(par, (ast.UnaryOp, ast.BoolOp)) or (isinstance(par, (ast.If, ast.While, ast.IfExp, ast.Assert))
                                                      and par.test is n):
         return (True, 'truth value (empty or not) is order-insensitive')
+    if isinstance(par, ast.Subscript) and par.value is n and isinstance(par.ctx, ast.Store) and isinstance(par.slice, ast.Slice):
+        return None             # slice assignment: a structural change of the list (what R-LINK looks at), not a reading of its order
     if isinstance(par, ast.Subscript) and par.value is n:
         if isinstance(par.ctx, ast.Del) and isinstance(par.slice, ast.Slice) and par.slice.lower is None \
                 and par.slice.upper is None and par.slice.step is None:
